@@ -15,7 +15,7 @@ RULE = ('for every starting version V in 0..SCHEMA_VERSION (every shard enumerat
         'schema == schema_create_actions(), schemaVersion current, data cells and row ids of ordinary user tables equal '
         '(Image cells retyped as documented), a current document gets only the schemaVersion update, no table/column '
         'added twice. A case = one (document, route, mode) evaluation that reached the judge; non-trivial = V < current '
-        'and the document has user data rows and >= 2 metadata tables with generated rows; distinct by (V, variant, '
+        'and the document has user data rows and >= 5 populated metadata tables; distinct by (V, variant, '
         'column-type structure of the user tables, populated metadata tables, JSON shapes of the parsed cells).')
 ASSUMPTIONS = ['a version-V document is one whose metadata schema is what the migrations themselves produce from version 0',
                'cells are given in the raw SQLite representation Node hands to create_migrations (Bool 0/1, RefList/ChoiceList as JSON text or null)',
